@@ -27,18 +27,21 @@ var errX = errors.New("attempt failed")
 
 // cfg is a delay configuration. Durations in nanoseconds.
 type cfg struct {
-	Kind      string  `json:"kind"` // none | fixed | backoff | random | func-value | func-zero | func-none
-	Delay     int64   `json:"delay"`
-	MaxDelay  int64   `json:"max_delay"`
-	Factor    float32 `json:"factor"`
-	Min       int64   `json:"min"`
-	Max       int64   `json:"max"`
-	FuncVal   int64   `json:"func_val"`
-	Jitter    int64   `json:"jitter"`
-	JitterF   float32 `json:"jitter_factor"`
-	MaxDur    int64   `json:"max_duration"`
-	Failures  int     `json:"failures"`
-	DefaultBO bool    `json:"default_backoff"` // WithBackoff (factor 2) instead of WithBackoffFactor
+	Kind string `json:"kind"` // none | fixed | backoff | random | func-value | func-zero | func-none | backoff-func-mixed
+	// FuncPattern (backoff-func-mixed): per retry, the delay function's answer in ns, or -1 for "no opinion" (the backoff
+	// delay applies; the k-th backoff delay is the k-th one the backoff produced, whatever the function said in between)
+	FuncPattern []int64 `json:"func_pattern,omitempty"`
+	Delay       int64   `json:"delay"`
+	MaxDelay    int64   `json:"max_delay"`
+	Factor      float32 `json:"factor"`
+	Min         int64   `json:"min"`
+	Max         int64   `json:"max"`
+	FuncVal     int64   `json:"func_val"`
+	Jitter      int64   `json:"jitter"`
+	JitterF     float32 `json:"jitter_factor"`
+	MaxDur      int64   `json:"max_duration"`
+	Failures    int     `json:"failures"`
+	DefaultBO   bool    `json:"default_backoff"` // WithBackoff (factor 2) instead of WithBackoffFactor
 	// Replaced settings: builder calls made before the ones above which, as documented, the later call replaces
 	// ("Replaces any previously configured fixed or random delays" / "delay or backoff delay" / "jitter factor" / "jitter
 	// duration"). PriorDelay: "" | fixed | random | backoff (only with kind backoff or random); PriorJitter: the other
@@ -84,6 +87,13 @@ func (c cfg) build(onScheduled func(failsafe.ExecutionScheduledEvent[int])) retr
 		b.WithDelay(time.Duration(c.Delay)).WithDelayFunc(func(failsafe.ExecutionAttempt[int]) time.Duration { return 0 })
 	case "func-none":
 		b.WithDelay(time.Duration(c.Delay)).WithDelayFunc(func(failsafe.ExecutionAttempt[int]) time.Duration { return -1 })
+	case "backoff-func-mixed":
+		b.WithBackoffFactor(time.Duration(c.Delay), time.Duration(c.MaxDelay), c.Factor).WithDelayFunc(func(e failsafe.ExecutionAttempt[int]) time.Duration {
+			if k := e.Retries(); k < len(c.FuncPattern) {
+				return time.Duration(c.FuncPattern[k])
+			}
+			return -1
+		})
 	}
 	if c.Jitter != 0 {
 		b.WithJitter(time.Duration(c.Jitter))
@@ -120,6 +130,28 @@ func (c cfg) base(k int) (lo, hi float64) {
 		// round to whole nanoseconds and carries float32 rounding (DESIGN.md L6); the cap at maxDelay is exact
 		lo, hi = float64(c.Delay), float64(c.Delay)
 		for i := 0; i < k; i++ {
+			lo = lo*factor*(1-stepTol) - 1
+			hi = hi*factor*(1+stepTol) + 1
+			if lo > float64(c.MaxDelay) {
+				lo = float64(c.MaxDelay)
+			}
+			if hi > float64(c.MaxDelay) {
+				hi = float64(c.MaxDelay)
+			}
+		}
+		return lo, hi
+	case "backoff-func-mixed":
+		if k < len(c.FuncPattern) && c.FuncPattern[k] != -1 {
+			return float64(c.FuncPattern[k]), float64(c.FuncPattern[k])
+		}
+		steps := 0 // backoff delays produced before this one
+		for i := 0; i < k; i++ {
+			if i >= len(c.FuncPattern) || c.FuncPattern[i] == -1 {
+				steps++
+			}
+		}
+		lo, hi = float64(c.Delay), float64(c.Delay)
+		for i := 0; i < steps; i++ {
 			lo = lo*factor*(1-stepTol) - 1
 			hi = hi*factor*(1+stepTol) + 1
 			if lo > float64(c.MaxDelay) {
@@ -173,16 +205,26 @@ func logUniform(t *rapid.T, label string, lo, hi int64) int64 {
 
 // genCfg draws a configuration; scale bounds the magnitudes (ns).
 func genCfg(t *rapid.T, lo, hi int64) cfg {
-	c := cfg{Kind: rapid.SampledFrom([]string{"none", "fixed", "backoff", "backoff", "backoff", "random", "func-value", "func-zero", "func-none"}).Draw(t, "kind")}
+	c := cfg{Kind: rapid.SampledFrom([]string{"none", "fixed", "backoff", "backoff", "backoff", "random", "func-value", "func-zero", "func-none", "backoff-func-mixed"}).Draw(t, "kind")}
 	c.Delay = logUniform(t, "delay", lo, hi)
 	switch c.Kind {
-	case "backoff":
+	case "backoff", "backoff-func-mixed":
 		c.MaxDelay = logUniform(t, "maxDelay", c.Delay, hi)
 		if c.MaxDelay < c.Delay {
 			c.MaxDelay = c.Delay
 		}
 		c.DefaultBO = rapid.IntRange(0, 3).Draw(t, "defaultBackoff") == 0
 		c.Factor = float32(rapid.SampledFrom([]float64{1, 1.5, 2, 3, 10, 1.1, 7.3}).Draw(t, "factor"))
+		if c.Kind == "backoff-func-mixed" {
+			c.DefaultBO = false
+			for k := 0; k < 12; k++ {
+				v := int64(-1)
+				if rapid.Bool().Draw(t, "funcAnswers") {
+					v = logUniform(t, "funcVal", lo, hi)
+				}
+				c.FuncPattern = append(c.FuncPattern, v)
+			}
+		}
 	case "random":
 		c.Min = logUniform(t, "min", lo, hi)
 		c.Max = logUniform(t, "max", c.Min, hi)
